@@ -119,7 +119,10 @@ func (g *Gateway) setSendReceiveBuffers(conn net.Conn) error {
 	if !valConn.IsValid() {
 		return errors.New("cannot find conn field")
 	}
-	valConn = valConn.Elem().Elem()
+	// tls.Conn holds a net.Conn interface, a plain *net.TCPConn embeds the conn struct directly
+	if valConn.Kind() == reflect.Interface {
+		valConn = valConn.Elem().Elem()
+	}
 
 	// net.FD
 	ptrNetFd := valConn.FieldByName("fd")
